@@ -488,6 +488,15 @@ func retValue(r *ssa.Return, idx int) ssa.Value {
 	if !ok {
 		return v
 	}
+	// only the spilled named result of this position (go/ssa stores the returned value into it just
+	// before the return); an ordinary local that happens to be returned keeps its load
+	named := false
+	if res := r.Parent().Signature.Results(); idx < res.Len() && res.At(idx).Name() != "" && res.At(idx).Name() == a.Comment {
+		named = true
+	}
+	if !named {
+		return v
+	}
 	b := r.Block()
 	for i := len(b.Instrs) - 1; i >= 0; i-- {
 		if st, ok := b.Instrs[i].(*ssa.Store); ok && st.Addr == a {
@@ -544,7 +553,7 @@ func leaves(fl *Flow, v ssa.Value, at ssa.Instruction) []Leaf {
 		// load of a local variable (named results are spilled in functions with defers):
 		// every value stored into it is a possible definition
 		if u, ok := v.(*ssa.UnOp); ok && u.Op == token.MUL {
-			if a, ok := u.X.(*ssa.Alloc); ok && !seenAlloc[a] {
+			if a, ok := u.X.(*ssa.Alloc); ok && !seenAlloc[a] && !fl.K.captured[a] {
 				if _, spilled := fl.K.spill[a]; !spilled {
 					seenAlloc[a] = true
 					n := 0
@@ -563,6 +572,24 @@ func leaves(fl *Flow, v ssa.Value, at ssa.Instruction) []Leaf {
 				}
 			}
 		}
+		// builtin min / max of two values is one of them, under the corresponding comparison
+		if call, ok := v.(*ssa.Call); ok && len(call.Call.Args) == 2 {
+			if b, ok := call.Call.Value.(*ssa.Builtin); ok && (b.Name() == "min" || b.Name() == "max") {
+				x, y := call.Call.Args[0], call.Call.Args[1]
+				kx, ky := fl.K.Key(x), fl.K.Key(y)
+				fx, fy := facts.clone(), facts.clone()
+				if b.Name() == "min" {
+					fx[Fact{"<=", kx, ky}] = true
+					fy[Fact{"<=", ky, kx}] = true
+				} else {
+					fx[Fact{"<=", ky, kx}] = true
+					fy[Fact{"<=", kx, ky}] = true
+				}
+				rec(x, fx)
+				rec(y, fy)
+				return
+			}
+		}
 		// result of a helper of the same package: the values the helper returns (on the returns
 		// compatible with what the caller knows about the helper's other results)
 		if hl := helperResultLeaves(fl, v, facts); hl != nil {
@@ -571,7 +598,21 @@ func leaves(fl *Flow, v ssa.Value, at ssa.Instruction) []Leaf {
 		}
 		out = append(out, Leaf{Val: v, Facts: facts})
 	}
-	rec(v, fl.At(at))
+	top := fl.At(at)
+	rec(v, top)
+	// the value is known to be non-nil at the use: it is not the nil alternative, and whichever
+	// alternative it is, that one is non-nil
+	if top != nil && top[neqFact(fl.K.Key(v), "nil")] && len(out) > 1 {
+		kept := out[:0]
+		for _, lf := range out {
+			if isNilConst(lf.Val) {
+				continue
+			}
+			lf.Facts[neqFact(lf.KeyIn(fl), "nil")] = true
+			kept = append(kept, lf)
+		}
+		out = kept
+	}
 	return out
 }
 
@@ -813,4 +854,88 @@ func helperVerdictImplies(fl *Flow, facts FactSet, want bool, pred func(*Flow, F
 		}
 	})
 	return found
+}
+
+// DeepSite is a call of a target function reached from a root function directly or through
+// helpers of the root's package, with the must-facts that hold there expressed in the root's
+// terms (the root's facts at the call of the helper, plus the helper's own facts with its
+// parameters replaced by the arguments).
+type DeepSite struct {
+	Site  ssa.CallInstruction
+	In    *ssa.Function
+	Facts FactSet
+	Args  []string // keys of the call's arguments in the root's terms
+	Defer bool     // reached through a deferred helper call (arguments were evaluated at the defer statement)
+}
+
+func deepSites(fl *Flow, isTarget func(*ssa.CallCommon) bool, depth int) []DeepSite {
+	var out []DeepSite
+	eachInstr(fl.Fn, func(in ssa.Instruction) {
+		ci, ok := in.(ssa.CallInstruction)
+		if !ok {
+			return
+		}
+		cc := ci.Common()
+		if isTarget(cc) {
+			ds := DeepSite{Site: ci, In: fl.Fn, Facts: fl.At(in)}
+			for _, a := range cc.Args {
+				ds.Args = append(ds.Args, fl.K.Key(a))
+			}
+			out = append(out, ds)
+			return
+		}
+		if _, isGo := in.(*ssa.Go); isGo || depth >= 2 {
+			return
+		}
+		cal := cc.StaticCallee()
+		if cal == nil || cal == fl.Fn || cal.Blocks == nil || cal.Synthetic != "" || funcPkgPath(cal) != funcPkgPath(fl.Fn) {
+			return
+		}
+		if _, isMC := cc.Value.(*ssa.MakeClosure); isMC {
+			return
+		}
+		inner := deepSites(NewFlow(fl.P, cal), isTarget, depth+1)
+		if len(inner) == 0 {
+			return
+		}
+		args := make([]string, len(cc.Args))
+		for i, a := range cc.Args {
+			args[i] = fl.K.Key(a)
+		}
+		tag := "@~" + cal.Name() + ":b${1}i${2}"
+		subst := func(k string) string {
+			k = localIDRe.ReplaceAllString(k, tag)
+			return paramRe.ReplaceAllStringFunc(k, func(m string) string {
+				i := 0
+				for _, ch := range m[1:] {
+					i = i*10 + int(ch-'0')
+				}
+				if i < len(args) {
+					return args[i]
+				}
+				return m
+			})
+		}
+		_, isDefer := in.(*ssa.Defer)
+		here := fl.At(in)
+		for _, ds := range inner {
+			m := here.clone()
+			for f := range ds.Facts {
+				g := Fact{f.Op, subst(f.L), ""}
+				if f.R != "" {
+					g.R = subst(f.R)
+				}
+				if (g.Op == "==" || g.Op == "!=") && g.L > g.R {
+					g.L, g.R = g.R, g.L
+				}
+				m[g] = true
+			}
+			nd := DeepSite{Site: ds.Site, In: ds.In, Facts: m, Defer: ds.Defer || isDefer}
+			for _, a := range ds.Args {
+				nd.Args = append(nd.Args, subst(a))
+			}
+			out = append(out, nd)
+		}
+	})
+	return out
 }
